@@ -531,6 +531,23 @@ func (c *Ctx) outputLookupDominatesAccept() bool {
 		}
 		found := false
 		for _, cond := range core.CondsAt(r.Block()) {
+			// a verdict helper of the same receiver returned nil, and every nil return of that helper is dominated by
+			// the successful lookup of the parameter that received the output ID
+			if x, neq, isNil := core.NilCmp(cond.V); isNil && neq != cond.True {
+				if hc, isCall := core.Unwrap(x).(*ssa.Call); isCall {
+					if h := c.verdictHelper(f, hc); h != nil {
+						pi := -1
+						for i, a := range hc.Call.Args {
+							if a == core.RetVal(r, 0) {
+								pi = i
+							}
+						}
+						if pi >= 0 && pi < len(h.Params) && c.lookupDominatesNilReturns(h, h.Params[pi]) {
+							found = true
+						}
+					}
+				}
+			}
 			if !cond.True {
 				continue
 			}
@@ -627,4 +644,32 @@ func (c *Ctx) ruleTypedNil(rule string, fns map[*ssa.Function]bool) {
 		}
 	}
 	c.R.Note("%s: %d dereferences of pointers asserted from data", rule, n)
+}
+
+// lookupDominatesNilReturns: every return of h whose error may be nil is dominated by a successful comma-ok lookup of
+// idx in the outputs table.
+func (c *Ctx) lookupDominatesNilReturns(h *ssa.Function, idx ssa.Value) bool {
+	ei := core.ErrorResultIndex(h.Signature)
+	n := 0
+	for _, r := range core.ReturnsOf(h) {
+		if c.M.ProvablyNonNilError(core.RetVal(r, ei), r.Block()) {
+			continue
+		}
+		n++
+		found := false
+		for _, cond := range core.CondsAt(r.Block()) {
+			if !cond.True {
+				continue
+			}
+			if t, ok := core.CommaOk(cond.V); ok {
+				if l, ok := t.(*ssa.Lookup); ok && strings.HasSuffix(c.M.ValPath(l.X), ".OutputsValue") && l.Index == idx {
+					found = true
+				}
+			}
+		}
+		if !found {
+			return false
+		}
+	}
+	return n > 0
 }
